@@ -220,6 +220,12 @@ class Conv1d(nn.Conv1d):
             dtype,
         )
         assert isinstance(padding, int), "only `int` is supported for padding type"
+        for name, value in [
+            ("kernel_size", kernel_size),
+            ("stride", stride),
+            ("dilation", dilation),
+        ]:
+            assert isinstance(value, int), f"only `int` is supported for {name} type"
         self.kernel_size = kernel_size  # type:ignore[assignment]
         self.stride = stride  # type:ignore[assignment]
         self.padding = padding  # type:ignore[assignment]
